@@ -115,6 +115,14 @@ class Interval:
                 if op == "BitOr" and a[0] >= 0 and b[0] >= 0:
                     m = max(a[1], b[1])
                     return (0, (1 << m.bit_length()) - 1)
+            if op in ("div_ceil", "next_multiple_of") and len(t[2]) == 2:
+                a = self.of(t[2][0], depth + 1)
+                b = self.of(t[2][1], depth + 1)
+                if a and b and b[0] > 0 and a[0] >= 0:
+                    if op == "div_ceil":
+                        return (-((-a[0]) // b[1]), -((-a[1]) // b[0]))
+                    return (a[0], a[1] + b[1] - 1)
+                return None
             if op.startswith("sum:"):
                 return None
         return None
